@@ -1010,10 +1010,14 @@ def record_keywords(unit):
     rc, o, e = V.run_lines(unit, lines, cwd=V.scratch("C09rec"), timeout=300)
     tbl = {}
     for (k, _, _), l in zip(RECORD, o):
-        w = l.split()
+        w = l.split("|")[0].split()
         if w and w[0] in ("init-ok", "init-error"):
             tbl[k] = sorted(set(G.unhx(x) for x in w[1:]))
+            ECHOED[k] = sorted(set(G.unhx(x) for x in l.split("|")[1].split())) if "|" in l else []
     return tbl
+
+
+ECHOED = {}
 
 
 def write_gen(tbl):
@@ -1346,6 +1350,16 @@ def check(run):
                     ", ".join(what), name, b[first] if first < len(b) else "<end>", a[first] if first < len(a) else "<end>"), rp)
         if usable == 1:
             run.sample({"module_base": name, "config": conf.decode("latin1").split("\n")[:12], "observables": base_obs.split("\n")[:6]})
+    # two independent records of what a block looks up must agree: every keyword the parser ECHOES while the real init()
+    # of a block reads its text ("# keyword = value") must be among the keywords that init() REGISTERS for check_keywords
+    for lab in sorted(tbl):
+        reg = set(tbl[lab])
+        for k in ECHOED.get(lab, []):
+            run.count("echo:%s:%s" % (lab, k.decode("latin1")), True)
+            if k.lower() not in reg:
+                run.violation("strict:block:looked-up-keyword-not-registered",
+                              "the keyword %s is read (echoed) by the init() of a real %s block but is not among the keywords it registers for check_keywords: a configuration that uses it is refused" % (k.decode("latin1"), lab),
+                              {"kind": "unit", "case": "HK %s" % lab, "impl": k.decode("latin1"), "model": sorted(x.decode() for x in reg)})
     run.cov["correspondence"]["module_bases_usable"] = usable
     run.cov["correspondence"]["harvested_keywords"] = {k: len(v) for k, v in sorted(HARVEST.items())}
     # sequences of configurations sent to ONE module instance: the verdict on the last one and the objects it creates
